@@ -877,7 +877,9 @@ class Parser(object):
 
     def parse_step(self, line):
         for step_type in ("given", "when", "then", "and", "but"):
-            for kw in self.keywords[step_type]:
+            # -- NOTE: Try longer keyword aliases first. An alias may be
+            # the prefix of another one, like "A " and "A tiež " (sk).
+            for kw in sorted(self.keywords[step_type], key=len, reverse=True):
                 # try to match the keyword; also attempt a purely lowercase
                 # match if that'll work
                 if not (line.startswith(kw) or
